@@ -89,6 +89,12 @@ func ParseWithEnvMapping(in io.Reader, mapping func(string) string) (config Conf
 	if err = dec.Decode(&config); err != nil {
 		return
 	}
+	for format, override := range config.Overrides {
+		if override == nil {
+			// an override block without any setting overrides nothing
+			config.Overrides[format] = &Overridables{}
+		}
+	}
 	config.envMappingFunc = mapping
 	if config.envMappingFunc == nil {
 		config.envMappingFunc = func(s string) string { return s }
